@@ -433,7 +433,7 @@ Proof.
 Qed.
 
 (* --- GC preserves it *)
-Theorem gc_imports_wf m m' : imports_wf m -> gc m = Ok m' -> imports_wf m'.
+Theorem gc_imports_wf m m' : imports_wf m -> gc_sweep m = Ok m' -> imports_wf m'.
 Proof.
   intros [U M] Hg. destruct (gc_shape _ _ Hg) as [u [Hu R]]. split.
   - intros id1 id2 i1 i2 H1 H2. apply (gr_imports _ _ _ R) in H1. apply (gr_imports _ _ _ R) in H2.
@@ -448,7 +448,7 @@ Proof.
 Qed.
 
 (* ====================================================================================== *)
-(* 5. parse ; gc ; emit : rho is an injective partial map, defined exactly on the kept ones *)
+(* 5. parse ; gc_sweep ; emit : rho is an injective partial map, defined exactly on the kept ones *)
 (* ====================================================================================== *)
 Lemma gc_live_iff m m' u S id : gc_rel m m' u -> S <> S_type -> S <> S_local ->
   (ent_live m' S id <-> ent_live m S id /\ In (S, id) u).
@@ -465,7 +465,7 @@ Qed.
 Section AfterGC.
   Variables (cf : config) (ver : list N) (w : wmod) (s : pst) (ilen : wins -> N) (dw : list wsec) (m' : wir) (e' : emitted).
   Hypothesis HP : parseM cf ver w = POk s.
-  Hypothesis HG : gc (ps_m s) = Ok m'.
+  Hypothesis HG : gc_sweep (ps_m s) = Ok m'.
   Hypothesis HE : emitM m' ilen dw = Ok e'.
 
   Theorem gc_wf_space S : S <> S_local -> wf_map (space_map (em_x2i e') S).
